@@ -85,6 +85,7 @@ type scriptWriter struct {
 	i      int
 	taken  int
 	bad    string
+	shy    bool // it took less than it was offered, or failed, at least once
 }
 
 func (w *scriptWriter) Write(p []byte) (int, error) {
@@ -109,6 +110,9 @@ func (w *scriptWriter) Write(p []byte) (int, error) {
 		w.bad = fmt.Sprintf("byte %d handed to the writer differs from stream position %d", k, w.h.rpos+w.taken+k)
 	}
 	w.taken += m
+	if m < len(p) || e == "ERR" {
+		w.shy = true
+	}
 	if e == "ERR" {
 		return m, errScripted
 	}
@@ -260,6 +264,10 @@ func (h *ringGhost) apply(e vsup.Edge, to vsup.State) {
 			return
 		}
 		h.rpos += wr.taken
+		// a writer that takes whatever it is offered gets everything that is buffered
+		if !wr.shy && B > 0 && (wr.taken != B || err != nil) {
+			h.viol(op, "incomplete", fmt.Sprintf("WriteTo to a writer that accepts everything moved %d of %d buffered bytes (err %v)", wr.taken, B, err))
+		}
 		if int(n) != expN() || errClass(err) != vsup.Str(ret["err"]) {
 			h.nonconf(op, "result", fmt.Sprintf("WriteTo = %d,%s; model %d,%s", n, errClass(err), expN(), ret["err"]))
 		}
